@@ -167,7 +167,7 @@ Proof. reflexivity. Qed.
 Lemma tr_ty_final x : tr (GFinal x) = option_map TFinal (tr x).
 Proof. reflexivity. Qed.
 Lemma tr_ty_aliasstr m n body : tr (GAliasStr m n body) =
-  match rref N (remove_all (m +++ "."%string) body) (Some m) with
+  match rref N (remove_lead (m +++ "."%string) body) (Some m) with
   | Some (TRef c) => Some (TAliasStr (wid N m n) c)
   | _ => None
   end.
@@ -227,7 +227,7 @@ Proof.
   - rewrite tr_ty_newtype in H. apply option_map_some in H. destruct H as [tx [Hx ->]]. cbn [unwrap]. apply IH. exact Hx.
   - rewrite tr_ty_alias in H. apply option_map_some in H. destruct H as [tx [Hx ->]]. cbn [unwrap]. apply IH. exact Hx.
   - rewrite tr_ty_aliasstr in H. rewrite tr_ty_ref.
-    destruct (rref N (remove_all (m +++ "."%string) bd) (Some m)) as [r|]; [|discriminate H].
+    destruct (rref N (remove_lead (m +++ "."%string) bd) (Some m)) as [r|]; [|discriminate H].
     destruct r; try discriminate H. injection H as <-. reflexivity.
   - rewrite tr_ty_final in H. apply option_map_some in H. destruct H as [tx [Hx ->]]. cbn [unwrap]. apply IH. exact Hx.
   - rewrite H. rewrite tr_ty_ref in H. destruct (rref N a mo) as [r|]; [|discriminate H].
@@ -249,7 +249,7 @@ Proof.
   - injection H as <-. discriminate Hr.
   - rewrite tr_ty_newtype in H. apply option_map_some in H. destruct H as [tx [_ ->]]. discriminate Hr.
   - rewrite tr_ty_alias in H. apply option_map_some in H. destruct H as [tx [_ ->]]. discriminate Hr.
-  - rewrite tr_ty_aliasstr in H. destruct (rref N (remove_all (m +++ "."%string) bd) (Some m)) as [r|]; [|discriminate H].
+  - rewrite tr_ty_aliasstr in H. destruct (rref N (remove_lead (m +++ "."%string) bd) (Some m)) as [r|]; [|discriminate H].
     destruct r; try discriminate H. injection H as <-. discriminate Hr.
   - rewrite tr_ty_final in H. apply option_map_some in H. destruct H as [tx [_ ->]]. discriminate Hr.
   - rewrite tr_ty_ref in H. destruct (rref N a mo) as [r|]; [|discriminate H].
@@ -479,8 +479,8 @@ Proof.
     + intros c Hc'. apply (Hcls m0 preds c Hpin). rewrite <- Hun. exact Hc'.
     + intros var c Hlev Hsk.
       destruct (is_literal (Graph.unwrap (Graph.ntype m0))) eqn:Hlit.
-      { exfalso. rewrite Hsh, Hty in Hlev. destruct (Graph.unwrap (Graph.ntype m0)); try discriminate Hlit.
-        cbn in Hlev. exact Hlev. }
+      { exfalso. rewrite Hsh, Hty in Hlev. destruct (Graph.unwrap (Graph.ntype m0)); try discriminate Hlit;
+          cbn in Hlev; exact Hlev. }
       rewrite Hsh, Hty in Hlev.
       destruct (members_before fuel E root g order Hg Ht m0 preds Hpin Hlit var c Hlev Hsk) as [m [Hmp [Hbef Hrep]]].
       assert (Hnd : nodupb (pre ++ n :: post) = true) by (rewrite <- Ho; exact (proj1 Ht)).
@@ -686,7 +686,7 @@ Proof. unfold names_okb, names_ok. intros H c m nm tc Hin Hn Htc. rewrite forall
 Definition ref_guard (E : Graph.env) (univ : list gty) (c : gty) : bool :=
   denotes_guard E c && mem c univ && mem (Graph.unwrap c) univ &&
   match named E c, named E (Graph.unwrap c) with
-  | Some (m, _), Some (mu, nu) => String.eqb mu m && String.eqb (remove_all (m +++ "."%string) nu) nu
+  | Some (m, _), Some (mu, nu) => String.eqb mu m && String.eqb (remove_lead (m +++ "."%string) nu) nu
   | _, _ => false
   end.
 
@@ -699,8 +699,8 @@ Proof. destruct c as [s| | | |l|g a|sp ms|k|m' n' t|m' n' t|m' n' bd|t|a mo]; cb
   - injection H as _ <-. reflexivity. Qed.
 
 Lemma mkref_parts E c u var n : mkref E c u var = Some n ->
-  exists m0 r, Graph.ntype n = GRef (remove_all (m0 +++ "."%string) r) (Some m0) /\
-               Graph.nunw n = GRef (remove_all (m0 +++ "."%string) (qualname E u)) (Some m0).
+  exists m0 r, Graph.ntype n = GRef (remove_lead (m0 +++ "."%string) r) (Some m0) /\
+               Graph.nunw n = GRef (remove_lead (m0 +++ "."%string) (qualname E u)) (Some m0).
 Proof. unfold mkref. destruct (ref_parts E c) as [[m0 r]|]; [|discriminate]. intros H. injection H as <-.
   exists m0, r. split; reflexivity. Qed.
 
